@@ -31,7 +31,7 @@ def custom_world(gname):
 
 def jobs_for(pid, tier):
     js = []
-    groups = ["I1024", "Ed25519", "toy1019"] if tier == "quick" else ["I1024", "I2048", "I3072", "Ed25519", "toy11", "toy1019", "toy257", "sp61"]
+    groups = ["I1024", "Ed25519", "toy1019"] if tier == "quick" else ["I1024", "I2048", "I3072", "Ed25519", "toy11", "toy1019", "toy257", "sp61", "big2052"]
     if pid == "C01":
         for g in groups:
             for fl in ("AB", "SS"):
